@@ -26,7 +26,7 @@ first = open(demo).readline()
 m = re.search(r'([\w\-/\.]+\.rs)', first)
 place = m.group(1) if m else 'minicbor-tests/tests/seed_demo.rs'
 cmdm = re.search(r'(cargo test[^\n]*)', open(demo).read()[:600])
-democmd = cmdm.group(1).strip().rstrip('`').strip() if cmdm else None
+democmd = cmdm.group(1).strip().rstrip('`).,;').strip() if cmdm else None
 if democmd is None:
     democmd = 'cargo test -p minicbor-tests --features std --test %s --offline' % os.path.basename(place)[:-3]
 if '--offline' not in democmd:
